@@ -181,7 +181,7 @@ def run(ctx):
     import gen_scope
     from checks import c07
     scs, _r = progcheck.tlc_scenarios(ctx, "Scope", c07.cfg("quick"), "c11_scope")
-    two = [sc for sc in scs if sc.get("slot2", "none") != "none" and sc["slot"] in ("G0", "D4", "S41", "T41", "D5", "TD5", "TF4")]
+    two = [sc for sc in scs if not sc.get("ld") and sc.get("slot2", "none") != "none" and sc["slot"] in ("G0", "D4", "S41", "T41", "D5", "TD5", "TF4")]
     if not two:
         raise vlib.ToolError("no Scope scenario with comments in both files")
     items = []
